@@ -67,21 +67,25 @@ type c33fam struct {
 }
 
 type c33stream struct {
-	id          uint32
-	path        string
-	opened      bool
-	clientEnded bool // END_STREAM sent
-	dead        bool // client sent RST, or server answered RST / finished the stream
-	sentFC      int  // flow-controlled octets sent on the stream
-	accepted    int  // data octets of frames the server accepted
-	read        int  // octets the handler read
-	wu          int  // stream-level WINDOW_UPDATE total
-	bodyClosed  bool // handler closed the body
-	returned    bool
-	declared    int    // declared content-length, -1 = none
-	overLen     int    // flow-controlled octets of the DATA frame that went beyond the declared length (0 = none)
-	gone        bool   // seen absent from the server's stream table
-	closeKind   string // the event class during which the stream disappeared
+	id           uint32
+	path         string
+	opened       bool
+	clientEnded  bool // END_STREAM sent
+	dead         bool // client sent RST, or server answered RST / finished the stream
+	sentFC       int  // flow-controlled octets sent on the stream
+	accepted     int  // data octets of frames the server accepted
+	read         int  // octets the handler read
+	wu           int  // stream-level WINDOW_UPDATE total
+	bodyClosed   bool // handler closed the body
+	returned     bool
+	declared     int    // declared content-length, -1 = none
+	overLen      int    // flow-controlled octets of the DATA frame that went beyond the declared length (0 = none)
+	gone         bool   // seen absent from the server's stream table
+	readBusy     bool   // selord: a handler Read command is outstanding
+	vanished     bool   // selord: seen absent from the stream table between serve-loop steps
+	inflight     bool   // selord: a handler Read was outstanding when the stream vanished
+	inflightRead int    // selord: octets that Read returned
+	closeKind    string // the event class during which the stream disappeared
 }
 
 type c33model struct {
@@ -345,7 +349,9 @@ func c33invariants(r *vk.Run, id string, ev string, hist []string, e *h2env, m *
 			}
 		} else if !s.gone {
 			s.gone = true
-			s.closeKind = c33closekind(ev, s)
+			if s.closeKind == "" {
+				s.closeKind = c33closekind(ev, s)
+			}
 			newlyGone = append(newlyGone, s)
 		}
 	}
@@ -377,6 +383,10 @@ func c33leakclass(ev string, m *c33model, newlyGone []*c33stream, diff int) stri
 	s := newlyGone[0]
 	unread := s.accepted - s.read
 	switch {
+	case s.inflightRead > 0 && (diff == s.inflightRead || diff == -s.inflightRead):
+		// exactly the octets of a handler Read that was between pipe.Read and the serve loop's
+		// noteBodyRead when the stream ended
+		return "closed-stream-read-in-flight(" + s.closeKind + ")"
 	case s.closeKind == "over-declared-length" && diff == s.overLen:
 		// exactly the octets of the DATA frame that exceeded the declared length are missing
 		return "over-declared-data-frame"
@@ -399,49 +409,121 @@ func c33poll(e *h2env, m *c33model) {
 	}
 }
 
+// c33run is the state of one execution shared by the families: environment, model, history.
+type c33run struct {
+	r    *vk.Run
+	f    *c33fam
+	e    *h2env
+	m    *c33model
+	hist []string
+	id   string
+}
+
+// c33begin prepares the handlers (timer / panic seam) and the model of a fresh connection.
+func c33begin(r *vk.Run, f *c33fam, e *h2env) *c33run {
+	if f.alpha.timer || f.alpha.panics {
+		e.mu.Lock()
+		e.autoHandler = func(h *h2handler) {
+			if rb, ok := h.req.Body.(*RequestBody); ok && f.alpha.timer {
+				// what bfe_server's reverse proxy does at request start. The streams' timers are 100 ms
+				// apart (by stream id) so that two of them never fire at the same instant of the
+				// fake clock (their order in timeoutEventCh would be a scheduler accident).
+				var sid int
+				fmt.Sscanf(h.id, "/s%d", &sid)
+				SetReadStreamTimeout(rb, c33timeout+time.Duration(sid)*100*time.Millisecond)
+			}
+			h.req.Body = &c33body{h.req.Body}
+		}
+		e.mu.Unlock()
+	}
+	m := &c33model{win: c33connInit}
+	for _, fr := range e.recv() {
+		if fr.Type == FrameSettings && !fr.Ack {
+			for _, s := range fr.Settings {
+				if s.ID == SettingInitialWindowSize {
+					m.win = int(s.Val)
+				}
+			}
+		}
+	}
+	for i := 0; i < f.alpha.maxStreams; i++ {
+		m.streams = append(m.streams, &c33stream{id: uint32(2*i + 1), path: fmt.Sprintf("/s%d", 2*i+1), declared: -1})
+	}
+	return &c33run{r: r, f: f, e: e, m: m}
+}
+
+// step executes one environment event and checks the oracle at the quiescent point after it.
+func (x *c33run) step(ev c33event) {
+	x.hist = append(x.hist, ev.name)
+	acc := map[uint32]int{}
+	for _, s := range x.m.streams {
+		acc[s.id] = s.accepted
+	}
+	ev.run(x.e, x.m)
+	c33poll(x.e, x.m)
+	x.check(ev.name, acc)
+}
+
+// check folds the server's frames into the ledger and checks it (quiescent point).
+func (x *c33run) check(ev string, acc map[uint32]int) {
+	c33observe(x.r, x.id, ev, x.e, x.m, acc)
+	c33invariants(x.r, x.id, ev, x.hist, x.e, x.m)
+	x.r.Transitions(1)
+}
+
+// finish runs the epilogue (no choices): the client cancels every request that is still open,
+// every handler returns; then nothing is outstanding and the ledger must be back at its initial
+// value. It then records the execution.
+func (x *c33run) finish(id string, nth int64) {
+	e, m, r, f := x.e, x.m, x.r, x.f
+	x.id = id
+	for _, s := range m.streams {
+		s := s
+		if s.opened && !s.dead && !m.connDead {
+			x.step(c33event{fmt.Sprintf("END:RST@%d", s.id), func(e *h2env, m *c33model) { c33reset(e, s) }})
+		}
+	}
+	for _, s := range m.streams {
+		s := s
+		c33poll(e, m)
+		if h := e.handler(s.path); h != nil && !h.done && !h.busy && !m.connDead {
+			x.step(c33event{fmt.Sprintf("END:RET@%d", s.id), func(e *h2env, m *c33model) { c33return(h, s) }})
+		}
+	}
+	tracked := 0 // streams the server still tracks (e.g. the handler is gone after a panic)
+	for _, s := range m.streams {
+		if _, alive := e.sc.streams[s.id]; s.opened && alive {
+			tracked++
+		}
+	}
+	if !m.connDead && tracked == 0 {
+		if back := c33connInit + m.wu0 - m.totalFC; back+m.ackLeak != c33connInit {
+			// (unreachable unless c33invariants is wrong: it already compares at this point)
+			r.Violation("conn-window-not-restored-at-end", id, fmt.Sprintf("no stream is left but the client's connection window is %d, initial %d, after %v", back, c33connInit, x.hist))
+		}
+	}
+	var kinds []string
+	for _, s := range m.streams {
+		if s.gone {
+			kinds = append(kinds, s.closeKind)
+		}
+	}
+	sort.Strings(kinds)
+	r.Outcome(fmt.Sprintf("%s:dead=%v:ends=%s:lost=%v", f.name, m.connDead, strings.Join(kinds, "+"), m.ackLeak != 0))
+	r.Case(id)
+	r.Nontrivial(f.name + " " + strings.Join(x.hist, " "))
+	if nth%5000 == 17 {
+		r.Sample(map[string]interface{}{"family": f.name, "events": strings.Join(x.hist, " "), "server_frames": h2trace(e.frames)})
+	}
+}
+
 func c33exec(t *testing.T, r *vk.Run, f *c33fam, ch *vk.Chooser, nth int64) {
 	conf := &Server{MaxUploadBufferPerStream: f.win}
 	h2run(t, conf, false, func(e *h2env) {
-		if f.alpha.timer || f.alpha.panics {
-			e.mu.Lock()
-			e.autoHandler = func(h *h2handler) {
-				if rb, ok := h.req.Body.(*RequestBody); ok && f.alpha.timer {
-					SetReadStreamTimeout(rb, c33timeout) // what bfe_server's reverse proxy does at request start
-				}
-				h.req.Body = &c33body{h.req.Body}
-			}
-			e.mu.Unlock()
-		}
-		m := &c33model{win: c33connInit}
-		for _, fr := range e.recv() {
-			if fr.Type == FrameSettings && !fr.Ack {
-				for _, s := range fr.Settings {
-					if s.ID == SettingInitialWindowSize {
-						m.win = int(s.Val)
-					}
-				}
-			}
-		}
-		for i := 0; i < f.alpha.maxStreams; i++ {
-			m.streams = append(m.streams, &c33stream{id: uint32(2*i + 1), path: fmt.Sprintf("/s%d", 2*i+1), declared: -1})
-		}
-		var hist []string
-		id := ""
-		step := func(ev c33event) {
-			hist = append(hist, ev.name)
-			acc := map[uint32]int{}
-			for _, s := range m.streams {
-				acc[s.id] = s.accepted
-			}
-			ev.run(e, m)
-			c33poll(e, m)
-			c33observe(r, id, ev.name, e, m, acc)
-			c33invariants(r, id, ev.name, hist, e, m)
-			r.Transitions(1)
-		}
+		x := c33begin(r, f, e)
 		for d := 0; d < f.depth; d++ {
-			c33poll(e, m)
-			evs := c33events(&f.alpha, e, m)
+			c33poll(e, x.m)
+			evs := c33events(&f.alpha, e, x.m)
 			if len(evs) == 0 {
 				break
 			}
@@ -449,51 +531,10 @@ func c33exec(t *testing.T, r *vk.Run, f *c33fam, ch *vk.Chooser, nth int64) {
 			if ch.Skipped {
 				return
 			}
-			id = f.name + "|trace:" + ch.TraceString()
-			step(evs[i])
+			x.id = f.name + "|trace:" + ch.TraceString()
+			x.step(evs[i])
 		}
-		id = ch.CaseID(f.name)
-		// Epilogue (no choices): the client cancels every request that is still open, every
-		// handler returns; then nothing is outstanding and the ledger must be back at its
-		// initial value.
-		for _, s := range m.streams {
-			s := s
-			if s.opened && !s.dead && !m.connDead {
-				step(c33event{fmt.Sprintf("END:RST@%d", s.id), func(e *h2env, m *c33model) { c33reset(e, s) }})
-			}
-		}
-		for _, s := range m.streams {
-			s := s
-			c33poll(e, m)
-			if h := e.handler(s.path); h != nil && !h.done && !h.busy && !m.connDead {
-				step(c33event{fmt.Sprintf("END:RET@%d", s.id), func(e *h2env, m *c33model) { c33return(h, s) }})
-			}
-		}
-		tracked := 0 // streams the server still tracks (e.g. the handler is gone after a panic)
-		for _, s := range m.streams {
-			if _, alive := e.sc.streams[s.id]; s.opened && alive {
-				tracked++
-			}
-		}
-		if !m.connDead && tracked == 0 {
-			if back := c33connInit + m.wu0 - m.totalFC; back+m.ackLeak != c33connInit {
-				// (unreachable unless c33invariants is wrong: it already compares at this point)
-				r.Violation("conn-window-not-restored-at-end", id, fmt.Sprintf("no stream is left but the client's connection window is %d, initial %d, after %v", back, c33connInit, hist))
-			}
-		}
-		var kinds []string
-		for _, s := range m.streams {
-			if s.gone {
-				kinds = append(kinds, s.closeKind)
-			}
-		}
-		sort.Strings(kinds)
-		r.Outcome(fmt.Sprintf("%s:dead=%v:ends=%s:lost=%v", f.name, m.connDead, strings.Join(kinds, "+"), m.ackLeak != 0))
-		r.Case(id)
-		r.Nontrivial(f.name + " " + strings.Join(hist, " "))
-		if nth%5000 == 17 {
-			r.Sample(map[string]interface{}{"family": f.name, "events": strings.Join(hist, " "), "server_frames": h2trace(e.frames)})
-		}
+		x.finish(ch.CaseID(f.name), nth)
 	})
 }
 
@@ -556,4 +597,9 @@ func TestVerifC33(t *testing.T) {
 		}
 		r.Set("family_"+strings.ReplaceAll(f.name, ".", "_"), fmt.Sprintf("stream window %s, depth %d, complete=%v", win, f.depth, complete))
 	}
+	// order in which the serve loop takes simultaneously pending inputs
+	c33selord(t, r, "selord.pool", 0)
+	c33selord(t, r, "selord.w16", 16)
+	// closeStream against a handler inside RequestBody.Read (controlled scheduler)
+	c33race(t, r)
 }
